@@ -319,6 +319,11 @@ def _main(mod, pid, tier, seed, args, t0):
         from harness import translate
 
         T = translate.regenerate()
+    if getattr(mod, "TRANSLATE_ALGO", None):
+        from harness import translate_algo
+
+        # imperative translator (DESIGN.md §2.2b): only the generated modules this property is stated about
+        T = T + translate_algo.regenerate(list(mod.TRANSLATE_ALGO))
     # 2. build property theorems (+ driver)
     if not args.no_build:
         ok, out = lake_build(list(mod.LEAN_MODS))
@@ -328,8 +333,13 @@ def _main(mod, pid, tier, seed, args, t0):
         if not okd:
             # the driver links every model incl. the generated ones; a failure there concerns only the
             # properties that depend on the generated files (the stale binary keeps serving the others)
-            if getattr(mod, "TRANSLATE", False):
-                P = P + [d for d in broken_decls(outd) if d not in P]
+            if getattr(mod, "TRANSLATE", False) or getattr(mod, "TRANSLATE_ALGO", None):
+                # only what lies in this property's own import closure (or is the driver-side runner of one of its generated
+                # modules) is attributed to it; other generated files are another property's business
+                mine = {str(f.relative_to(LEAN)) for f in _closure(mod.LEAN_MODS)} | set(getattr(mod, "DRIVER_FILES", []))
+                P = P + [d for d in broken_decls(outd) if d not in P and (d["file"] in mine or d["file"] == "?")]
+                if not any(d["file"] in mine or d["file"] == "?" for d in broken_decls(outd)):
+                    print("warning: driver did not rebuild (a generated file of another property?); using the previous binary", file=sys.stderr)
             else:
                 print("warning: driver did not rebuild (unrelated generated file?); using the previous binary", file=sys.stderr)
         # 3. audit
